@@ -14,7 +14,7 @@
 (*       cerr : class of the Connect error JSON (unary non-200 body or      *)
 (*              end-of-stream envelope),                                    *)
 (*       body : "good"|"nomsg"|"noterm"|"empty"|"garbage"|"twomsgs",        *)
-(*       casing : "canon"|"lower"|"upper"  (metadata key inside the terminator)] *)
+(*       casing : "canon"|"lower"|"upper"|"both" (metadata key in the terminator)] *)
 (* Outcome: [ok, code, n (messages yielded), lookup ("hit"|"miss"|"na")]    *)
 (***************************************************************************)
 EXTENDS Integers, Sequences, FiniteSets, TLC
